@@ -29,6 +29,13 @@ def line_cfgs():
     for fam in ("default", "asp", "multi", "pct", "angle"):
         for t, l in ((False, False), (True, True), (True, False), (False, True)):
             out.append(lu.make_cfg(fam, trim=t, lstrip=l))
+    for fam in lu.NEIGHBOURS:
+        out.append(lu.make_cfg(fam))
+    # neighbours in the other settings: only keep_trailing_newline / newline sequence / one prefix differs
+    out.append(lu.make_cfg("default", keep=True))
+    out.append(lu.make_cfg("default", nl="rn"))
+    out.append(lu.make_cfg("default", lsp="%"))
+    out.append(lu.make_cfg("default", lcp="##"))
     for t, l in ((False, False), (True, True), (False, True)):
         out.append(lu.make_cfg("default", trim=t, lstrip=l, lsp="%", lcp="##"))
         out.append(lu.make_cfg("default", trim=t, lstrip=l, lsp="##", lcp="#", keep=True))
